@@ -2,6 +2,7 @@
 import re
 import analyses as A
 import lib
+import witness
 import raft_rules
 
 PS = raft_rules.PS
@@ -220,3 +221,5 @@ def run(ctx, rep):
     r01c(ctx, rep, cr)
     r01d(ctx, rep, cr)
     r01e(ctx, rep, cr)
+    if ctx.tier == 'thorough':
+        witness.run(rep, 'R01a', ['RaftPersistentStateIsPrivate'])
